@@ -145,6 +145,16 @@ def _prove1(pc, side, goal, quick=False):
         if r == z3.sat:
             return Verdict('refuted', model=s.model(), backend='z3')
         if budget in (Z3_FIRST, 600):
+            # 1a. polynomial normal form first when it applies (cheap, and for polynomial identities the tactic stage below only burns its budgets)
+            t1 = time.time()
+            try:
+                ok0 = poly_identity(pc, side, goal)
+            except Exception:
+                ok0 = False
+            STATS['sympy_s'] += time.time() - t1
+            if ok0:
+                STATS['sympy'] += 1
+                return Verdict('proved', backend='sympy-normal-form')
             # 1b. the same query through z3's nonlinear-real tactic pipeline (equation solving first, then nlsat): decides at once many
             # queries on which the default solver's performance depends on incidental term order; only `unsat` is taken from it
             for tac in (('simplify', 'propagate-values', 'solve-eqs', 'qfnra-nlsat'), ('simplify', 'solve-eqs', 'smt')):
